@@ -100,9 +100,77 @@ func printerReplay(args []string) {
 		}
 		rep.AddReplayed(1)
 		replayPrinterLine(rep, *prop, &ln, raw)
+		if *prop == "C12" {
+			remember(raw)
+		}
 	})
+	if *prop == "C12" {
+		historyIndependence(rep)
+	}
 	mon.stop("")
 	rep.Finish()
+}
+
+// C12 on the printer cases: "the result is unaffected by any earlier calls in the process".  Every case of the slice has
+// been run once (in whatever order the workers took them); all of them are run again, in the reverse order of arrival and
+// on one goroutine, and then a third time: each case must print the same text every time (addresses excepted).
+var (
+	rememberMu sync.Mutex
+	remembered [][]byte
+)
+
+func remember(raw []byte) {
+	rememberMu.Lock()
+	remembered = append(remembered, append([]byte(nil), raw...))
+	rememberMu.Unlock()
+}
+
+func historyIndependence(rep *lib.Report) {
+	run := func(raw []byte) (string, bool) {
+		var ln printerLine
+		if json.Unmarshal(raw, &ln) != nil || lib.HasKind(ln.C.Ts, "ptrto", "chan", "func") {
+			return "", false
+		}
+		u8 := false
+		walkTerms(ln.C.Ts, func(t *lib.Term) {
+			for _, cp := range t.Caps {
+				if cp == "U8" {
+					u8 = true
+				}
+			}
+		})
+		if u8 {
+			return "", false
+		}
+		c := lib.NewCtxLike(nil, 900000) // the same object handles every time
+		defer c.Release()
+		r := runCase(c, ln.C)
+		if r.Panicked {
+			return "PANIC " + r.PanicVal, true
+		}
+		return string(r.Out), true
+	}
+	first := map[int]string{}
+	for i := len(remembered) - 1; i >= 0; i-- {
+		if out, ok := run(remembered[i]); ok {
+			first[i] = out
+		}
+	}
+	for i := range remembered {
+		out, ok := run(remembered[i])
+		if !ok {
+			continue
+		}
+		rep.AddEval(1)
+		if out != first[i] {
+			var ln printerLine
+			_ = json.Unmarshal(remembered[i], &ln)
+			c := lib.NewCtx(nil)
+			rep.Violate("printer:history-dependent", fmt.Sprintf("%s printed %q in one pass over the cases and %q in another: the result depends on earlier calls in the process", caseString(c, ln.C), first[i], out), json.RawMessage(remembered[i]))
+			c.Release()
+		}
+	}
+	rep.Count("cases_rerun_for_history_independence", len(first))
 }
 
 func replayPrinterLine(rep *lib.Report, prop string, ln *printerLine, raw []byte) {
